@@ -138,7 +138,8 @@ type topo struct {
 	Chal         string     `json:"challenge"` // "commit": Commit(inputs, exported) ; "outputs": the exported outputs ; "none"
 	ExportInputs bool       `json:"export_inputs"`
 
-	skip atomic.Bool // the native solving hint would not return for this topology (set by runTopologies)
+	depOnce sync.Once
+	depIdx  map[[2]int]int // (input wire, instance) -> index in Deps
 }
 
 func (t *topo) inputs() (r []int) {
@@ -218,10 +219,14 @@ func (t *topo) exported() []int {
 
 // depOf returns the dependency bound to (input wire, instance), or nil.
 func (t *topo) depOf(w, inst int) *depSpec {
-	for i := range t.Deps {
-		if t.Deps[i].InWire == w && t.Deps[i].InInst == inst {
-			return &t.Deps[i]
+	t.depOnce.Do(func() {
+		t.depIdx = make(map[[2]int]int, len(t.Deps))
+		for i := len(t.Deps) - 1; i >= 0; i-- { // the first one listed wins
+			t.depIdx[[2]int{t.Deps[i].InWire, t.Deps[i].InInst}] = i
 		}
+	})
+	if i, ok := t.depIdx[[2]int{w, inst}]; ok {
+		return &t.Deps[i]
 	}
 	return nil
 }
@@ -250,23 +255,25 @@ func (t *topo) order() []int {
 		indeg[d.InInst]++
 		succ[d.OutInst] = append(succ[d.OutInst], d.InInst)
 	}
-	var res []int
-	done := make([]bool, t.N)
-	for len(res) < t.N {
-		progress := false
-		for i := 0; i < t.N; i++ {
-			if !done[i] && indeg[i] == 0 {
-				done[i] = true
-				res = append(res, i)
-				for _, s := range succ[i] {
-					indeg[s]--
-				}
-				progress = true
+	res := make([]int, 0, t.N)
+	queue := make([]int, 0, t.N)
+	for i := 0; i < t.N; i++ {
+		if indeg[i] == 0 {
+			queue = append(queue, i)
+		}
+	}
+	for len(queue) > 0 {
+		i := queue[0]
+		queue = queue[1:]
+		res = append(res, i)
+		for _, s := range succ[i] {
+			if indeg[s]--; indeg[s] == 0 {
+				queue = append(queue, s)
 			}
 		}
-		if !progress {
-			panic("c19: cyclic instance dependencies generated")
-		}
+	}
+	if len(res) != t.N {
+		panic("c19: cyclic instance dependencies generated")
 	}
 	return res
 }
@@ -277,7 +284,11 @@ func (t *topo) String() string {
 	for i, w := range t.Wires {
 		fmt.Fprintf(&sb, " w%d=%s%v", i, w.Op, w.In)
 	}
-	for _, d := range t.Deps {
+	for i, d := range t.Deps {
+		if i == 16 {
+			fmt.Fprintf(&sb, " … (%d dependencies in all)", len(t.Deps))
+			break
+		}
 		fmt.Fprintf(&sb, " [w%d@%d<-w%d@%d]", d.InWire, d.InInst, d.OutWire, d.OutInst)
 	}
 	return sb.String()
@@ -417,8 +428,10 @@ func (t *topo) genDeps(rng *rand.Rand) {
 	ins, outs := t.inputs(), t.outputs()
 	pickIn := func() int { return ins[rng.IntN(len(ins))] }
 	pickOut := func() int { return outs[rng.IntN(len(outs))] }
+	seen := map[[2]int]bool{}
 	add := func(inW, outW, inInst, outInst int) {
-		if t.depOf(inW, inInst) == nil {
+		if !seen[[2]int{inW, inInst}] {
+			seen[[2]int{inW, inInst}] = true
 			t.Deps = append(t.Deps, depSpec{InWire: inW, OutWire: outW, InInst: inInst, OutInst: outInst})
 		}
 	}
